@@ -502,8 +502,15 @@ func (x *Exec) Do(op Op) (sig, detail string) {
 				return "reopen-mismatch", fmt.Sprintf("op %d: Count()=%d after clean restart, reference has %d", idx, cnt, len(x.Ref))
 			}
 			after := x.segmentFiles()
-			if len(before) != len(after) {
-				return "idle-cycle-changed-files", fmt.Sprintf("op %d: Open+Close without writes changed the set of segment files: %d -> %d", idx, len(before), len(after))
+			// Open needs a writable current segment: when every existing segment is sealed (or none is left after a
+			// compaction) it creates a new, empty one. That adds no record; anything else must be unchanged.
+			for n, d := range after {
+				if _, ok := before[n]; !ok && len(d) != 512 {
+					return "idle-cycle-changed-files", fmt.Sprintf("op %d: Open+Close without writes created segment %s with %d bytes", idx, n, len(d))
+				}
+			}
+			if len(after) < len(before) {
+				return "idle-cycle-changed-files", fmt.Sprintf("op %d: Open+Close without writes removed segment files: %d -> %d", idx, len(before), len(after))
 			}
 			for n, d := range before {
 				if after[n] != d {
